@@ -166,27 +166,26 @@ Section RecoverProofs.
 
   (** * Files written by the writer: whole frames of encoded records *)
   Hypothesis crc_range : forall p, 0 <= crc p < two32.
-  Hypothesis dec_enc : forall r, dec (enc r) = Some r.
-  Hypothesis enc_short : forall r, lenZ (enc r) < two32.
+  Notation ok := (rec_ok enc dec).
 
   Definition frames (rs : list record) : bytes := concat (map (frame crc) (map enc rs)).
 
-  Lemma decodes_enc rs : decodes record dec (map enc rs) rs.
-  Proof. induction rs; constructor; auto. Qed.
-  Lemma short_enc rs : short (map enc rs).
-  Proof. induction rs; constructor; auto. Qed.
+  Lemma decodes_enc rs : Forall ok rs -> decodes record dec (map enc rs) rs.
+  Proof. induction 1 as [|r rs [H _] _ IH]; constructor; auto. Qed.
+  Lemma short_enc rs : Forall ok rs -> short (map enc rs).
+  Proof. induction 1 as [|r rs [_ H] _ IH]; constructor; auto. Qed.
 
-  Lemma parse_frames_enc rs : parse crc record dec (frames rs) = (rs, Eof).
-  Proof. apply parse_frames_l; auto using decodes_enc, short_enc. Qed.
+  Lemma parse_frames_enc rs : Forall ok rs -> parse crc record dec (frames rs) = (rs, Eof).
+  Proof. intros H. apply parse_frames_l; auto using decodes_enc, short_enc. Qed.
 
-  Lemma file_records_frames f rs : f_bytes f = frames rs -> file_records f = rs.
-  Proof. intros H. unfold Recover.file_records. rewrite H, parse_frames_enc. reflexivity. Qed.
+  Lemma file_records_frames f rs : Forall ok rs -> f_bytes f = frames rs -> file_records f = rs.
+  Proof. intros Hok H. unfold Recover.file_records. rewrite H, parse_frames_enc by exact Hok. reflexivity. Qed.
 
   Lemma file_records_cut f rs n :
-    f_bytes f = frames rs ->
+    Forall ok rs -> f_bytes f = frames rs ->
     file_records (cut_file n f) = firstn (frames_within n (map enc rs)) rs.
   Proof.
-    intros H. unfold Recover.file_records, cut_file. cbn [f_bytes]. rewrite H. unfold frames.
+    intros Hok H. unfold Recover.file_records, cut_file. cbn [f_bytes]. rewrite H. unfold frames.
     rewrite (parse_truncated_l crc record dec crc_range (map enc rs) rs n); auto using decodes_enc, short_enc.
   Qed.
 
@@ -200,7 +199,7 @@ Section RecoverProofs.
       the earlier files followed by exactly the records of the last file whose frames lie
       wholly inside the cut, and what it commits is a prefix of what the uncut directory commits *)
   Lemma crash_prefix_tail_l fs0 s f rs_f n meta tmp :
-    meta <> MetaBad -> f_bytes f = frames rs_f ->
+    meta <> MetaBad -> Forall ok rs_f -> f_bytes f = frames rs_f ->
     let k := frames_within n (map enc rs_f) in
     let before := disk_records (min_seq meta) fs0 in
     let keep (l : list record) := if s <? min_seq meta then [] else l in
@@ -209,14 +208,14 @@ Section RecoverProofs.
     /\ exists tail, snd (sm_run ([], []) (before ++ keep rs_f))
                     = snd (sm_run ([], []) (before ++ keep (firstn k rs_f))) ++ tail.
   Proof.
-    intros Hm Hf k before keep.
+    intros Hm Hok Hf k before keep.
     repeat split.
     - rewrite recover_spec by exact Hm. cbn [d_meta d_files]. rewrite disk_records_app. cbn [Recover.disk_records].
       unfold keep. destruct (s <? min_seq meta); [reflexivity|].
-      rewrite (file_records_cut f rs_f n Hf), app_nil_r. reflexivity.
+      rewrite (file_records_cut f rs_f n Hok Hf), app_nil_r. reflexivity.
     - rewrite recover_spec by exact Hm. cbn [d_meta d_files]. rewrite disk_records_app. cbn [Recover.disk_records].
       unfold keep. destruct (s <? min_seq meta); [reflexivity|].
-      rewrite (file_records_frames f rs_f Hf), app_nil_r. reflexivity.
+      rewrite (file_records_frames f rs_f Hok Hf), app_nil_r. reflexivity.
     - unfold keep. destruct (s <? min_seq meta).
       + exists []. rewrite !app_nil_r. reflexivity.
       + replace (before ++ rs_f) with ((before ++ firstn k rs_f) ++ skipn k rs_f)
@@ -226,7 +225,7 @@ Section RecoverProofs.
 
   (** everything the fsynced part of the last file commits survives every such crash *)
   Lemma synced_commits_survive_l fs0 s f rs_f n meta tmp :
-    meta <> MetaBad -> f_bytes f = frames rs_f -> (Z.to_nat (f_synced f) <= n)%nat ->
+    meta <> MetaBad -> Forall ok rs_f -> f_bytes f = frames rs_f -> (Z.to_nat (f_synced f) <= n)%nat ->
     s <? min_seq meta = false ->
     let ks := frames_within (Z.to_nat (f_synced f)) (map enc rs_f) in
     let before := disk_records (min_seq meta) fs0 in
@@ -234,8 +233,8 @@ Section RecoverProofs.
       recover (mkDisk (fs0 ++ [(s, cut_file n f)]) meta tmp) = ROk rs
       /\ rs = snd (sm_run ([], []) (before ++ firstn ks rs_f)) ++ tail.
   Proof.
-    intros Hm Hf Hn Hs ks before.
-    destruct (crash_prefix_tail_l fs0 s f rs_f n meta tmp Hm Hf) as (H1 & _ & _).
+    intros Hm Hok Hf Hn Hs ks before.
+    destruct (crash_prefix_tail_l fs0 s f rs_f n meta tmp Hm Hok Hf) as (H1 & _ & _).
     rewrite Hs in H1. eexists.
     set (k := frames_within n (map enc rs_f)) in *.
     assert (Hk : (ks <= k)%nat) by (apply frames_within_mono; exact Hn).
